@@ -6,6 +6,10 @@ impl ShellVariable {
     pub uninterp spec fn is_placeholder(&self) -> bool;   // a declared-but-unset variable: ShellValue::Unset(..)
     #[verifier::external_body]
     pub fn is_readonly(&self) -> (r: bool) ensures r == self.readonly() { unimplemented!() }
+    pub uninterp spec fn exported_version(&self) -> ShellVariable;      // the same variable with the export attribute set
+    // variables.rs export(): sets the attribute (unit U46 proves that for the real body)
+    #[verifier::external_body]
+    pub fn export(&mut self) -> (r: &mut Self) ensures *final(self) == old(self).exported_version(), *final(r) == *final(self) { unimplemented!() }
     // variables.rs: value() is `&self.value`; ShellValue::is_set() is "not the Unset variant"
     #[verifier::external_body]
     pub fn value(&self) -> (r: &ShellValue) ensures r.set_spec() == !self.is_placeholder() { unimplemented!() }
@@ -29,7 +33,7 @@ impl ShellVariableMap {
     { unimplemented!() }
     #[verifier::external_body]
     pub fn set(&mut self, name: &str, var: ShellVariable) -> (r: Option<ShellVariable>)
-        ensures final(self)@ == old(self)@.insert(name@, var)
+        ensures final(self)@ == old(self)@.insert(name@, var), (r is None) == !old(self)@.contains_key(name@)
     { unimplemented!() }
     #[verifier::external_body]
     pub fn unset(&mut self, name: &str) -> (r: Option<ShellVariable>)
@@ -75,4 +79,8 @@ pub open spec fn topmost_local(sc: Seq<(EnvironmentScope, ShellVariableMap)>, k:
 }
 pub open spec fn same_but(a: Seq<(EnvironmentScope, ShellVariableMap)>, b: Seq<(EnvironmentScope, ShellVariableMap)>, k: int) -> bool {
     a.len() == b.len() && forall|j: int| 0 <= j < a.len() && j != k ==> a[j].0 == b[j].0 && (#[trigger] a[j]).1@ == b[j].1@
+}
+// scope k is the innermost one of the given kind
+pub open spec fn innermost_of_kind(sc: Seq<(EnvironmentScope, ShellVariableMap)>, k: int, kind: EnvironmentScope) -> bool {
+    0 <= k < sc.len() && sc[k].0 == kind && forall|j: int| k < j < sc.len() ==> sc[j].0 != kind
 }
